@@ -11,10 +11,11 @@ CONSTANTS Tree,          \* block tree
           PCaps, ACaps,  \* cache sizes to sweep
           MaxBacklog,    \* engine never runs further ahead of the async accepter than this
           MaxParses,     \* bound on redundant re-parsing (parsing a block the VM already knows)
+          MaxFaults,     \* bound on failed index writes (UpdateLastAccepted errors)
           WithSync       \* enable StartSync / FinishSync
 
-VARIABLE reparses
-mcvars == <<vars, reparses>>
+VARIABLES reparses, faults
+mcvars == <<vars, reparses, faults>>
 
 (*   b0 -- b1 -- b3 -- b6          b4 and b2 are invalid blocks; b5 is a valid child of an invalid block *)
 (*     \     \-- b4(inv)                                                                               *)
@@ -41,20 +42,22 @@ Tree5 == [b0 |-> [p |-> "none", h |-> 0, inv |-> FALSE],
           b4 |-> [p |-> "b2", h |-> 2, inv |-> FALSE]]
 
 MCInit == /\ \E rdy \in InitReady, pc \in PCaps, ac \in ACaps : InitWith(Tree, Root, rdy, pc, ac)
-          /\ reparses = 0
+          /\ reparses = 0 /\ faults = 0
 
 MCNext ==
-  \/ /\ UNCHANGED reparses
+  \/ /\ UNCHANGED <<reparses, faults>>
      /\ \/ \E b \in IDs : est[b] = "new" /\ Parse(b)
         \/ \E b \in IDs : Build(b) \/ Verify(b) \/ Reject(b) \/ SetPref(b)
         \/ \E b \in IDs : Backlog < MaxBacklog /\ Accept(b)
         \/ Dequeue \/ Process
         \/ WithSync /\ \E t \in IDs : StartSync(t) \/ FinishSyncWith(t, HeightOrder(vblocks), FixParentMissing)
   \/ (* parsing an already known block again (cache hit or re-parse after eviction) *)
-     /\ reparses < MaxParses /\ reparses' = reparses + 1
+     /\ reparses < MaxParses /\ reparses' = reparses + 1 /\ UNCHANGED faults
      /\ \E b \in IDs : est[b] # "new" /\ Parse(b)
 
-MCSpec == MCInit /\ [][MCNext]_mcvars
+MCNextF == MCNext \/ (/\ faults < MaxFaults /\ faults' = faults + 1 /\ UNCHANGED reparses
+                      /\ \E b \in IDs : AcceptIndexFails(b))
+MCSpec == MCInit /\ [][MCNextF]_mcvars
 
 (* the step outputs and the re-parse budget do not influence the future *)
 View == <<static, engine, wrap, caches, ptrs, async, chainG, notif, sync>>
